@@ -80,6 +80,8 @@ def to_z3re(pattern, flags, groups=None, nd=None):
     def category(av):
         if av is C.CATEGORY_DIGIT:
             return digit_class(ascii_only, nd)
+        if av is C.CATEGORY_WORD and ascii_only:
+            return z3.Union(z3.Range("a", "z"), z3.Range("A", "Z"), z3.Range("0", "9"), z3.Re("_"))
         raise Unsupported(f"regex category {av}")
 
     def cls_item(op, av):
